@@ -177,6 +177,17 @@ class C14(HttpProp):
                         ops.append(line)
             ops.append("kill")
             out.append(Case(f"c14-bin-{j}", ops, {"only": "sqlite", "bin": True, "big": True}, mode="bin"))
+        # a storage call fails while a request is served (the library reports an error, which is no protocol
+        # outcome): the response is 500, never the encoding of an outcome the library did not produce
+        reqs5 = ["http POST av hyph=latest:1 hyph=1 history b:6", "http GET gcv hyph=anc:1:1 hyph=1 absent e", "http GET gcv hyph=latest:1 hyph=1 absent e",
+                 "http POST as hyph=latest:1 hyph=1 snapshot b:8", "http GET snap - hyph=1 absent e", "http GET snap - hyph=2 absent e", "http GET gcv hyph=nil hyph=2 absent e"]
+        for j, rq in enumerate(reqs5):
+            ops = ["http POST av hyph=nil hyph=1 history b:1", "http POST av hyph=latest:1 hyph=1 history b:2", "http POST as hyph=anc:1:1 hyph=1 snapshot b:9",
+                   "http POST av hyph=nil hyph=2 history b:3"]
+            for idx in range(0, 4):
+                ops += [f"fault {idx}:before", rq]
+            ops += [rq]
+            out.append(Case(f"c14-fault-{j}", ops, {"only": "sqlite", "faults": True, "big": True}, mode="http"))
         for j, nb in enumerate(sizes_b):
             kch = [1, 3, 2][j % 3]
             ops = ["http POST av hyph=nil hyph=1 history b:1", f"http POST av hyph=latest:1 hyph=1 history big:{nb}:{kch}",
@@ -201,6 +212,14 @@ class C14(HttpProp):
                         fails.append(f"{backend}: request #{i}: found child without both id headers and the history-segment content type (`{ri.split(' | ')[0]}`)")
                     if h.route == "snap" and r.status == 200 and (not r.xv.isdigit() or r.ct != "snapshot"):
                         fails.append(f"{backend}: request #{i}: snapshot without X-Version-Id / the snapshot content type")
+            return fails
+        if case.meta.get("faults"):
+            for i, (o, ri, rm) in enumerate(trace):
+                if o.startswith("http ") and i + 1 < len(trace) and trace[i + 1][0].startswith("mark fired 1"):
+                    r = HResp(ri)
+                    if r.status != 500:
+                        fails.append(f"{backend}: request #{i} `{o[:60]}`: a storage call failed while it was served (the library outcome is an error), answered {r.status} "
+                                     f"`{ri.split(' | ')[0][:70]}` — the encoding of a protocol outcome the library did not produce")
             return fails
         for i, (o, ri, rm) in enumerate(trace):
             if o.startswith("http "):
@@ -404,6 +423,18 @@ class C15(HttpProp):
                         f"http POST as hyph=latest:{c} hyph={c} snapshot chunks:3,4", f"http GET snap - hyph={c} absent e",
                         "dumpall", "rows", f"http POST av hyph=nil hyph={c} history brk:9", "dumpall", "rows"]
             out.append(Case(f"c15-manyrefusals-{k}", ops, mode="http"))
+        # a refusal is immediate and independent of what else the worker is doing: malformed requests arriving while a
+        # slow upload (of the same or another client) is being received by the same worker
+        bad = ["http POST as hyph=latest:2 hyph=2 snapshot e", "http POST as hyph=latest:1 hyph=1 other chunks:2,2", "http POST av hyph=latest:2 hyph=2 history e1",
+               "http POST as short=latest:2 hyph=2 snapshot chunks:1,1", "http POST av hyph=latest:1 nonhex=1 history chunks:2,1", "http POST as nonhex=latest:2 hyph=2 snapshot chunks:3,1",
+               "http POST as hyph=latest:1 absent snapshot chunks:1,2"]
+        for k in range(sizes(tier, 7, 28)):
+            slow = ["http POST as hyph=latest:1 hyph=1 snapshot chunks:5,5,5,5,5,5", "http POST av hyph=latest:1 hyph=1 history chunks:4,4,4,4,4,4",
+                    "http POST as hyph=latest:2 hyph=2 snapshot chunks:3,3,3,3,3,3"][k % 3]
+            ops = [f"http POST av hyph=nil hyph={c} history b:1,{c}" for c in (1, 2)] + [f"http POST av hyph=latest:{c} hyph={c} history b:2,{c}" for c in (1, 2)]
+            grp = [slow, bad[k % len(bad)]] + ([bad[(k + 3) % len(bad)]] if k % 2 else [])
+            ops += ["dumpall", "ileave " + " || ".join(grp), "dumpall", "http GET snap - hyph=1 absent e", "http GET snap - hyph=2 absent e"]
+            out.append(Case(f"c15-busy-{k}", ops, {"busy": True}, mode="http"))
         # the same grammar through the real executable (whatever main() wraps around the application sees
         # every refusal too: unknown paths, wrong methods, malformed ids, bad headers, broken bodies)
         for k in range(sizes(tier, 3, 12)):
@@ -542,6 +573,12 @@ class C20(HttpProp):
                    "http@0 GET snap - hyph=1 absent e", "http@0 POST av hyph=nil hyph=1 history b:4", "http@0 POST av hyph=nil hyph=2 history chunks:3,4",
                    "http@0 GET unknown1 - absent absent e", "unstall", "http@0 POST av hyph=latest:1 hyph=1 history b:5", "http@0 GET gcv hyph=nil hyph=2 absent e", "kill"]
             out.append(Case(f"c20-load-{k}", ops, {"only": "sqlite", "bin": True}, mode="bin"))
+        if tier == "thorough":
+            # uploads outstanding for MINUTES (a replica that went to sleep mid-upload): whatever the server answers
+            # on such a connection in the end is a response like any other
+            ops = ["boot listen=flag:1 dir=flag allow=none versions=default days=default", "http@0 POST av hyph=nil hyph=1 history b:1", "stall 6", "sleep 330000",
+                   "http@0 POST av hyph=latest:1 hyph=1 history b:2", "unstall", "http@0 GET gcv hyph=nil hyph=1 absent e", "kill"]
+            out.append(Case("c20-longstall", ops, {"only": "sqlite", "bin": True}, mode="bin"))
         # responses produced when a storage call fails (500s), on every endpoint
         reqs = ["http POST av hyph=latest:1 hyph=1 history b:6", "http POST av hyph=nil hyph=fresh history b:6",
                 "http GET gcv hyph=nil hyph=1 absent e", "http POST as hyph=latest:1 hyph=1 snapshot b:8", "http GET snap - hyph=1 absent e"]
@@ -565,6 +602,10 @@ class C20(HttpProp):
         for i, (o, ri, rm) in enumerate(trace):
             if o.startswith("http ") and HResp(ri).cc != "1":
                 fails.append(f"op {i} `{o}`: response `{ri.split(' | ')[0]}` has no Cache-Control: no-store")
+            if o.startswith("mark unstall") and "without_cache_control=" in o:
+                kv = dict(x.split("=", 1) for x in o.split()[3:])
+                if kv.get("without_cache_control", "0") != "0":
+                    fails.append(f"op {i}: {kv['without_cache_control']} of the responses sent on connections whose upload had stalled have no Cache-Control: no-store (first: {kv.get('first')})")
         return fails
     def nontrivial(self, case, trace):
         return True
@@ -620,6 +661,16 @@ class C16(HttpProp):
                             f"http GET gcv hyph=nil {f}={c} absent e", "dumpall",
                             f"http POST av hyph=latest:{L} {f}={c} history b:1,7", "dumpall",
                             f"http POST as hyph=latest:{L} {f}={c} snapshot b:2,7", "dumpall"]
+            # an unlisted client's request carries a SECOND X-Client-Id line naming a listed client (and a listed
+            # client's a second line naming an unlisted one): the request is the first line's
+            if al not in ("none", "-"):
+                L = al.split(",")[0]
+                U = [c for c in ("1", "2", "3") if c not in al.split(",")]
+                for u in U[:1]:
+                    ops += ["dumpall", f"http GET snap - hyph={u} absent e xh=dupcid:{L}", "dumpall", f"http GET gcv hyph=nil hyph={u} absent e xh=dupcid:{L}", "dumpall",
+                            f"http POST av hyph=latest:{u} hyph={u} history b:1,8 xh=dupcid:{L}", "dumpall",
+                            f"http POST as hyph=latest:{u} hyph={u} snapshot b:2,8 xh=dupcid:{L}", "dumpall",
+                            f"http POST av hyph=latest:{L} hyph={L} history b:1,9 xh=dupcid:{u}", "dumpall", f"http GET snap - hyph={L} absent e xh=dupcid:{u}", "dumpall"]
             # an unlisted client (or the proxy in front of it) claims to be on the server's own host
             if al not in ("none",):
                 for j, xh in enumerate(("xff-loop", "xff-loop2", "xff-v6", "fwd-loop", "fwd-v6", "xri-loop")):
